@@ -27,6 +27,9 @@ type Spec struct {
 	Blocks []BlockSpec `json:"blocks"`
 	// PriceStep is the per-block random-walk step of base prices in 1/10000.
 	PriceStep int `json:"price_step"`
+	// PegPriceX multiplies the PEG base price (0 = 1): with an expensive PEG
+	// the mining rewards are worth enough for holder stakes to reach the cap.
+	PegPriceX uint64 `json:"peg_price_x,omitempty"`
 }
 
 type BlockSpec struct {
